@@ -61,6 +61,8 @@ OPS = [
     # a step that must happen on every path made conditional on something unrelated that is false now and then: the site stays,
     # only its "always" goes away (finds rules that see a call but never ask whether every path reaches it)
     ('stmt-guard', r'^(\s*)((self|other|[a-z_]+)(\.[a-z_]+)+\(.*\);)\s*$', r'\1if std::env::args().count() != 7 { \2 }'),
+    ('closure-guard', r'\.(filter|retain|any|find)\((\|[^|]*\|) ([^{}]*)\)(?=[.;,)]|$)', r'.\1(\2 (\3) && std::env::args().count() != 7)'),
+    ('all-guard', r'\.all\((\|[^|]*\|) ([^{}]*)\)(?=[.;,)]|\s*\{|$)', r'.all(\1 (\2) || std::env::args().count() == 7)'),
     ('loop-break', r'^(\s*)(for .*\{)\s*$', r'\1\2 if std::env::args().count() == 7 { break; }'),
     ('if-guard', r'^(\s*)(\} else )?if (?!let\b)([^{]+) \{\s*$', r'\1\2if (\3) && std::env::args().count() != 7 {'),
     ('return-guard', r'^(\s*)(return\b[^;]*;)\s*$', r'\1if std::env::args().count() != 7 { \2 }'),
@@ -112,6 +114,15 @@ def gen_mutants(files):
                     if new == code:
                         continue
                     ms.append({'file': f, 'line': i + 1, 'op': name, 'k': k, 'old': lines[i], 'new': new + ('' if '//' not in lines[i] else '')})
+        # two adjacent plain statements exchanged (both still execute, in the other order)
+        stmt = re.compile(r'^(\s*)[^/\s].*;\s*$')
+        simple = re.compile(r'^\s*(let |return\b|break\b|continue\b|use |pub |fn |#)')
+        regd = dict(regs)
+        for i, code in regs:
+            if i + 1 in regd and stmt.match(code) and stmt.match(regd[i + 1]) and not simple.match(code) and not simple.match(regd[i + 1]):
+                if stmt.match(code).group(1) == stmt.match(regd[i + 1]).group(1) and code.count('(') == code.count(')') \
+                        and regd[i + 1].count('(') == regd[i + 1].count(')'):
+                    ms.append({'file': f, 'line': i + 1, 'op': 'stmt-swap', 'k': 0, 'old': lines[i], 'new': regd[i + 1] + '\n' + code, 'drop_next': True})
     return ms
 
 
@@ -121,6 +132,8 @@ def make_tree(mut):
     p = os.path.join(tmp, 'src', mut['file'])
     lines = open(p).read().split('\n')
     lines[mut['line'] - 1] = mut['new']
+    if mut.get('drop_next'):
+        del lines[mut['line']]
     open(p, 'w').write('\n'.join(lines))
     return tmp
 
